@@ -33,10 +33,37 @@ def label(U, P, W, nt):
 def build(ctx, d):
     """-> (curve, rc, exact) or None (violation reported)"""
     U, P, W, nt = dec_curve(d)
-    o = call(lib.mk_curve, U, P, W, nt)
+    if (len(U) + len(str(P[0]))) % 2 == 0 and hasattr(ctx, "watch"):
+        # half of the curves are built on a KnotVector object they share with a bystander curve, which must come out of
+        # the case untouched (Curve operations rebind, they never write into the shared object)
+        o = call(_with_bystander, ctx, U, P, W, nt)
+    else:
+        o = call(lib.mk_curve, U, P, W, nt)
     if not ctx.check(o.ok, f"construct:{o.exc_name}", f"valid curve rejected: {o.brief()}"):
         return None
     return o.value, lib.case_rc(U, P, W, nt), nt == "frac"
+
+
+def bystander(ctx, curve):
+    """a second curve on the very KnotVector object `curve` holds now, watched until the case ends"""
+    m = lib.nurbs()
+    kv = curve.knotvector
+    P = curve.ctrlpoints
+    if P is None or not hasattr(ctx, "watch"):
+        return
+    o = call(m.Curve, kv, list(P)[::-1])
+    if o.ok and o.value.knotvector is kv:
+        ctx.watch(o.value, "curve built on the same KnotVector object")
+        ctx.count("bystanders_late")
+
+
+def _with_bystander(ctx, U, P, W, nt):
+    m = lib.nurbs()
+    kv = m.KnotVector(lib.nums(U, "frac" if nt == "fracint" else nt))
+    c = m.Curve(kv, lib.mk_points(P, nt), None if W is None else lib.nums(W, nt))
+    sib = m.Curve(kv, lib.mk_points(P[::-1], nt))
+    ctx.watch(sib, "curve built on the same KnotVector object")
+    return c
 
 
 def state_rc(ctx, curve, what):
